@@ -469,7 +469,9 @@ def checkRes (op : String) (args res : List String) : Verdict :=
        let B := MPoly.normalize K rb
        let m := MPoly.degreeIn x A
        let n := MPoly.degreeIn x B
-       if m + n > 7 then .skip "order above the determinant cap" else
+       -- Laplace expansion skips zero entries: banded integer matrices are cheap, parametric ones are not
+       let uni := (A ++ B).all (fun t => t.1.all (fun pr => pr.1 == x))
+       if m + n > (if uni then 12 else 7) then .skip "order above the determinant cap" else
        let tag := s!"{op}/{if m < n then "m<n" else if m = n then "m=n" else "m>n"}/order{m + n}"
        let outs := r.splitOn ";"
        let parsed := outs.mapM (fun s => match pPolyRaw? s with
